@@ -183,3 +183,40 @@ func VerifC06_SignalsBothWays() {
 	verifLeakCheck(true)
 	verifReach("C06/signals/end")
 }
+
+// histories mixed with errors: a work-start with a blank step id is answered by the real server with a step-fatal
+// error that carries no run id; the client must wake every waiting Execute (with or without a signal channel), and
+// a later Execute on the same connection still works
+func VerifC06_ErrorWithoutRunID() {
+	calls := 0
+	sess, err := verifStartSession(verifPluginSchema(&calls))
+	verifAssert("C06/norunid/handshake", err == nil)
+	if err != nil {
+		return
+	}
+	verifReach("C06/norunid/started")
+	withChannel := nondetBool("signalChannel")
+	var fromStep chan schema.Input
+	var drained sync.WaitGroup
+	if withChannel {
+		fromStep = make(chan schema.Input)
+		drained.Add(1)
+		go func() {
+			defer drained.Done()
+			for range fromStep {
+			}
+		}()
+	}
+	r1 := sess.client.Execute(schema.Input{RunID: "r1", ID: "", InputData: map[string]any{"n": int64(1)}}, nil, fromStep)
+	verifAssert("C06/norunid/blank-step-execute-returns-an-error", r1.Error != nil)
+	drained.Wait()
+	r2 := verifExec(sess.client, "r2", 5)
+	verifCheckResult("C06/norunid/later-execute", r2, 5)
+	cerr := sess.client.Close()
+	verifAssert("C06/norunid/close", cerr == nil)
+	sess.srvDone.Wait()
+	verifLeakCheck(true)
+	verifReach("C06/norunid/end")
+}
+
+func init() { verifRegister("VerifC06_ErrorWithoutRunID", VerifC06_ErrorWithoutRunID) }
